@@ -114,6 +114,7 @@ fn run_case(line: &str, decode: DecodeLevel, stats: bool) -> String {
         let g = wire.0.lock().unwrap();
         let mut compactions = 0;
         let mut resets = 0;
+        let mut small = 0;
         let mut prev_left: Option<usize> = None;
         for (i, off) in g.offered.iter().enumerate() {
             if let Some(left) = prev_left {
@@ -122,6 +123,9 @@ fn run_case(line: &str, decode: DecodeLevel, stats: bool) -> String {
                         resets += 1;
                     } else {
                         compactions += 1;
+                        if small == 0 || *off < small {
+                            small = *off; // fewest bytes that were consumed when the buffer was exactly full
+                        }
                     }
                 }
             }
@@ -129,7 +133,14 @@ fn run_case(line: &str, decode: DecodeLevel, stats: bool) -> String {
             prev_left = Some(off - delivered);
         }
         let offered: Vec<String> = g.offered.iter().map(|x| x.to_string()).collect();
-        res.push_str(&format!(";reads={};compactions={};resets={};offered={}", g.offered.len(), compactions, resets, offered.join(",")));
+        res.push_str(&format!(
+            ";reads={};compactions={};min_compaction={};resets={};offered={}",
+            g.offered.len(),
+            compactions,
+            small,
+            resets,
+            offered.join(",")
+        ));
     }
     res
 }
